@@ -477,6 +477,9 @@ def eq(eng, st, a, b):
         return z3.And(*parts) if parts else True
     if isinstance(a, VOpq) and isinstance(b, VOpq) and a.tag == b.tag:
         return a.t == b.t
+    if (isinstance(a, VOpq) and a.tag.startswith("opt:")) or (isinstance(b, VOpq) and b.tag.startswith("opt:")):
+        # an arbitrary value compared with anything: the outcome is unknown (a fresh Boolean)
+        return fresh("any_eq", z3.BoolSort())
     if isinstance(a, VRefBase) and isinstance(b, VRefBase):
         if a.oid == b.oid:
             return True
@@ -647,7 +650,8 @@ def py_str(eng, st, a, origin=""):
     if isinstance(a, VOpq):
         f = z3.Function("py_str_" + a.tag, a.t.sort(), z3.StringSort())
         return [(st, VStr(f(a.t)))]
-    if isinstance(a, VExc):
-        f = fresh("excstr", z3.StringSort())
+    if isinstance(a, (VExc, VType, VDict, VList, VTuple, VSet, VFun, VMod)):
+        # the text is not characterised; formatting these values does not raise
+        f = fresh("reprstr", z3.StringSort())
         return [(st, VStr(f))]
     raise Unsupported(f"str({a!r})")
